@@ -9,9 +9,11 @@ Theorems for the `rpm` scheme (model `Univers/Scheme/Rpm.lean`, spec `Univers/Sc
 * `getSegments_eq`     `get_segments` (the hash tokenizer) = the spec tokenizer `segs`
 * `eq_imp_hash`        C12: `a == b → hash key equal`, all `Raw` (since repairs 9738a24, 39a75b5)
 * `str_roundtrip`      C11 on `WellFormed` values
-* `str_roundtrip_counterexample`, `str_roundtrip_counterexample_epoch`, `str_invalid_counterexample`
-                       C11 FAILS on values the constructor produces (`0:v2`, `0:1:2`, `0:`)
-* `construct_valueError`        `RpmVersion("a:1")` raises a bare `ValueError`
+* `str_roundtrip_counterexample`, `str_roundtrip_counterexample_epoch`
+                       C11 FAILS on values the constructor produces (`0:v2`, `0:1:2`)
+* `construct_declared` nothing but `InvalidVersion` escapes the constructor (since 27588a5)
+* `construct_wf`       every constructed value is `Built`
+* `construct_str_roundtrip`  C11 for constructed values with a printed epoch or an unambiguous rest
 -/
 import Univers.Scheme.RpmSpec
 import Univers.Vers.Spec
@@ -563,13 +565,21 @@ theorem eq_imp_hash (a b : Raw) : verOps.eq a b = true → hashKey a = hashKey b
 
 def noWs (l : List Char) : Bool := l.all (fun c => !isWs c)
 
-/-- the values that `str` spells unambiguously -/
-def wellFormed (r : Raw) : Bool :=
-  noWs r.version && noWs r.release && !r.version.contains '-'
+/-- what every constructed value satisfies (`construct_wf`): no whitespace, no `-` in the version
+part, a version part that is not empty (since 27588a5), an epoch that `int()`/`str()` can handle -/
+def built (r : Raw) : Bool :=
+  noWs r.version && noWs r.release && !r.version.contains '-' && !r.version.isEmpty
   && decide ((Nat.toDigits 10 r.epoch.natAbs).length ≤ maxStrDigits)
+
+def Built (r : Raw) : Prop := built r = true
+instance (r : Raw) : Decidable (Built r) := inferInstanceAs (Decidable (_ = true))
+
+/-- the constructed values that `str` spells unambiguously: with epoch 0 (not printed) the rest
+must not look like it has an epoch or a leading `v` -/
+def wellFormed (r : Raw) : Bool :=
+  built r
   && (r.epoch != 0 ||
-      (!r.version.contains ':' && !r.release.contains ':' && !startsV r.version
-        && !(r.version.isEmpty && r.release.isEmpty)))
+      (!r.version.contains ':' && !r.release.contains ':' && !startsV r.version))
 where startsV : List Char → Bool
   | [] => false
   | c :: _ => isV c
@@ -695,18 +705,22 @@ theorem fromEvr_tail (e : Int) (v rl : List Char) (hv : v.contains '-' = false) 
      (some ⟨e, v', r'⟩ : Option Raw)) = some ⟨e, v, rl⟩ := by
   rw [splitVR v rl hv]
 
+theorem construct_of (s n : List Char) (r : Raw) (hn : normalize s = n) (hne : n.isEmpty = false)
+    (hf : fromEvr n = some r) (hv : r.version.isEmpty = false) : construct s = .ok r := by
+  simp [construct, isValid, hn, hne, hf, hv]
+
 /-- C11 on well-formed values: `RpmVersion(str(x)).value == x.value`, textually -/
 theorem str_roundtrip (r : Raw) (h : WellFormed r) : construct (str r) = .ok r := by
   obtain ⟨e, v, rl⟩ := r
-  simp only [WellFormed, wellFormed, Bool.and_eq_true, Bool.not_eq_true', decide_eq_true_eq,
+  simp only [WellFormed, wellFormed, built, Bool.and_eq_true, Bool.not_eq_true', decide_eq_true_eq,
     Bool.or_eq_true, bne_iff_ne, ne_eq] at h
-  obtain ⟨⟨⟨⟨hwv, hwr⟩, hdash⟩, hdig⟩, hep⟩ := h
+  obtain ⟨⟨⟨⟨⟨hwv, hwr⟩, hdash⟩, hnev⟩, hdig⟩, hep⟩ := h
   have hvr := noWs_vrOf v rl hwv hwr
   have hpz : pyInt ['0'] = some 0 := by decide
   by_cases he : e = 0
   · subst he
     simp only [not_true_eq_false, false_or] at hep
-    obtain ⟨⟨⟨hcv, hcr⟩, hsv⟩, hemp⟩ := hep
+    obtain ⟨⟨hcv, hcr⟩, hsv⟩ := hep
     have hs : str ⟨0, v, rl⟩ = vrOf v rl := by simp [str, vrOf]
     have hcol : (vrOf v rl).contains ':' = false := by
       have h1 : ':' ∉ v := by simpa using hcv
@@ -714,16 +728,13 @@ theorem str_roundtrip (r : Raw) (h : WellFormed r) : construct (str r) = .ok r :
       unfold vrOf; split <;> simp [h1, h2]
     have hdrop : (vrOf v rl).dropWhile isV = vrOf v rl ∧ (vrOf v rl).isEmpty = false := by
       cases v with
-      | nil =>
-        cases rl with
-        | nil => simp at hemp
-        | cons c t => simp [vrOf, List.dropWhile_cons, isV]
+      | nil => simp at hnev
       | cons c t =>
         have : isV c = false := by simpa [wellFormed.startsV] using hsv
         unfold vrOf; split <;> simp [List.dropWhile_cons, this]
     rw [hs]
-    simp only [construct, normalize, removeSpaces_of_noWs hvr, hdrop.1, hdrop.2, Bool.false_eq_true,
-      ↓reduceIte, fromEvr, hcol, hpz]
+    refine construct_of _ _ _ (by simp only [normalize, removeSpaces_of_noWs hvr, hdrop.1]) hdrop.2 ?_ hnev
+    simp only [fromEvr, hcol, Bool.false_eq_true, ↓reduceIte, hpz]
     rw [splitVR v rl hdash]
   · have hs : str ⟨e, v, rl⟩ = pyIntStr e ++ ':' :: vrOf v rl := by simp [str, vrOf, he]
     have hch := fun c hc => intChar_facts c (pyIntStr_chars e c hc)
@@ -748,8 +759,8 @@ theorem str_roundtrip (r : Raw) (h : WellFormed r) : construct (str r) = .ok r :
         simp [this]
     have hcont : (pyIntStr e ++ ':' :: vrOf v rl).contains ':' = true := by simp
     rw [hs]
-    simp only [construct, normalize, removeSpaces_of_noWs hws, hdrop.1, hdrop.2, Bool.false_eq_true,
-      ↓reduceIte, fromEvr, hcont, partition_append ':' _ _ hcol, pyInt_pyIntStr e hdig]
+    refine construct_of _ _ _ (by simp only [normalize, removeSpaces_of_noWs hws, hdrop.1]) hdrop.2 ?_ hnev
+    simp only [fromEvr, hcont, ↓reduceIte, partition_append ':' _ _ hcol, pyInt_pyIntStr e hdig]
     rw [splitVR v rl hdash]
 
 instance instDecEqResult : DecidableEq (Except PErr Raw) := fun a b =>
@@ -778,13 +789,154 @@ theorem str_roundtrip_counterexample_epoch :
     construct "0:1:2".toList = .ok ⟨0, ['1', ':', '2'], []⟩ ∧ str ⟨0, ['1', ':', '2'], []⟩ = ['1', ':', '2'] ∧
     construct ['1', ':', '2'] = .ok ⟨1, ['2'], []⟩ := by decide
 
-/-- `RpmVersion("0:")` (also `"-"`, `"0:-"`) is accepted, has value `(0, "", "")` and prints as
-the empty string, which is not a valid version. -/
-theorem str_invalid_counterexample :
-    construct "0:".toList = .ok ⟨0, [], []⟩ ∧ str ⟨0, [], []⟩ = [] ∧ construct [] = .error .invalid := by
-  decide
+/-- since 27588a5 nothing but `InvalidVersion` escapes the constructor (before it,
+`RpmVersion("a:1")` raised the bare `ValueError` of `int()`) -/
+theorem construct_declared (s : List Char) (n : String) : construct s ≠ .error (.other n) := by
+  rcases hf : fromEvr (normalize s) with _ | r
+  · simp [construct, isValid, hf]
+  · simp only [construct, isValid, hf]
+    split <;> simp <;> split <;> simp
 
-/-- the bare `ValueError` of `int(e)`: `RpmVersion("a:1")` -/
-theorem construct_valueError : construct "a:1".toList = .error (.other "ValueError") := by decide
+theorem construct_badEpoch_invalid : construct "a:1".toList = .error .invalid := by decide
+
+/-- since 27588a5 a value with an empty version part is rejected (before it, `RpmVersion("0:")`
+printed as the empty string) -/
+theorem construct_emptyVersion_invalid :
+    construct "0:".toList = .error .invalid ∧ construct "-".toList = .error .invalid ∧
+    construct "0:-1".toList = .error .invalid := by decide
+
+/-! ### what the constructor establishes -/
+
+theorem val_lt_pow (ds : List Char) (h : AllDigit ds) (i : Nat) :
+    val ds i < (i + 1) * 10 ^ ds.length := by
+  induction ds generalizing i with
+  | nil => simp [val]
+  | cons c t ih =>
+    have hc := (isDigit_iff c).1 h.head
+    have := ih h.tail (10 * i + (c.toNat - '0'.toNat))
+    simp only [val, Nat.ofDigitChars_cons, List.length_cons, Nat.pow_succ] at this ⊢
+    have hle : (10 * i + (c.toNat - '0'.toNat) + 1) * 10 ^ t.length ≤ (i + 1) * (10 ^ t.length * 10) := by
+      rw [show (i + 1) * (10 ^ t.length * 10) = (10 * i + 10) * 10 ^ t.length by
+        rw [Nat.mul_comm (10 ^ t.length) 10, ← Nat.mul_assoc]; congr 1; omega]
+      apply Nat.mul_le_mul_right
+      show 10 * i + (c.toNat - 48) + 1 ≤ 10 * i + 10
+      omega
+    omega
+
+theorem pyNatLit_bound (body : List Char) (n : Nat) (h : pyNatLit body = some n) :
+    (Nat.toDigits 10 n).length ≤ maxStrDigits := by
+  simp only [pyNatLit] at h
+  split at h
+  · split at h
+    · cases h
+    · next hlen =>
+      have hn := Option.some.inj h
+      have hd : AllDigit (body.filter Char.isDigit) := fun c hc => (List.mem_filter.1 hc).2
+      have hlt := val_lt_pow _ hd 0
+      simp only [val, Nat.zero_add, Nat.one_mul] at hlt
+      rw [hn] at hlt
+      have hp : 10 ^ (body.filter Char.isDigit).length ≤ 10 ^ maxStrDigits :=
+        Nat.pow_le_pow_right (by omega) (by omega)
+      exact (Nat.length_toDigits_le_iff (by omega) (by decide)).2 (by omega)
+  · cases h
+
+theorem pyInt_bound (s : List Char) (e : Int) (h : pyInt s = some e) :
+    (Nat.toDigits 10 e.natAbs).length ≤ maxStrDigits := by
+  unfold pyInt at h
+  split at h <;>
+  · simp only [Option.map_eq_some_iff] at h
+    obtain ⟨n, hn, he⟩ := h
+    have := pyNatLit_bound _ n hn
+    rw [← he]
+    simpa using this
+
+theorem not_mem_takeWhile_ne (sep : Char) (l : List Char) : sep ∉ l.takeWhile (fun c => c != sep) := by
+  induction l with
+  | nil => simp
+  | cons d u ih =>
+    by_cases hd : d = sep
+    · simp [List.takeWhile_cons, hd]
+    · simp only [List.takeWhile_cons, bne_iff_ne, ne_eq, hd, not_false_eq_true, decide_true, ↓reduceIte,
+        List.mem_cons, not_or]
+      exact ⟨fun e => hd e.symm, ih⟩
+
+theorem partition_sub (sep : Char) (l : List Char) :
+    (∀ c ∈ (partition sep l).1, c ∈ l) ∧ (∀ c ∈ (partition sep l).2, c ∈ l) := by
+  constructor
+  · intro c hc; exact (List.takeWhile_sublist _).subset hc
+  · intro c hc
+    exact (List.dropWhile_sublist _).subset ((List.drop_sublist _ _).subset hc)
+
+theorem noWs_of_sub {a b : List Char} (h : ∀ c ∈ a, c ∈ b) (hb : noWs b = true) : noWs a = true := by
+  simp only [noWs, List.all_eq_true] at hb ⊢
+  exact fun c hc => hb c (h c hc)
+
+theorem noWs_normalize (s : List Char) : noWs (normalize s) = true := by
+  simp only [noWs, List.all_eq_true, normalize, removeSpaces]
+  intro c hc
+  have := (List.dropWhile_sublist _).subset hc
+  exact (List.mem_filter.1 this).2
+
+theorem fromEvr_wf (n : List Char) (r : Raw) (hn : noWs n = true) (h : fromEvr n = some r) :
+    noWs r.version = true ∧ noWs r.release = true ∧ r.version.contains '-' = false ∧
+    (Nat.toDigits 10 r.epoch.natAbs).length ≤ maxStrDigits := by
+  unfold fromEvr at h
+  generalize hevr : (if n.contains ':' = true then partition ':' n else (['0'], n)) = evr at h
+  obtain ⟨e, vr⟩ := evr
+  have hvr : ∀ c ∈ vr, c ∈ n := by
+    split at hevr
+    · have := (partition_sub ':' n).2; rw [hevr] at this; exact this
+    · cases hevr; exact fun _ h => h
+  simp only at h
+  split at h
+  · cases h
+  · next ep hep =>
+    generalize hvrl : (if vr.contains '-' = true then partition '-' vr else (vr, [])) = vrl at h
+    obtain ⟨v, rl⟩ := vrl
+    have hr := Option.some.inj h
+    subst hr
+    simp only
+    have hv : (∀ c ∈ v, c ∈ vr) ∧ (∀ c ∈ rl, c ∈ vr) ∧ v.contains '-' = false := by
+      split at hvrl
+      · have h1 := partition_sub '-' vr
+        have h2 := not_mem_takeWhile_ne '-' vr
+        simp only [partition] at h1 hvrl
+        cases hvrl
+        exact ⟨h1.1, h1.2, by simpa using h2⟩
+      · next hc =>
+        cases hvrl
+        exact ⟨fun _ h => h, fun _ h => by simp at h, by simpa using hc⟩
+    exact ⟨noWs_of_sub (fun c hc => hvr c (hv.1 c hc)) hn, noWs_of_sub (fun c hc => hvr c (hv.2.1 c hc)) hn,
+      hv.2.2, pyInt_bound e ep hep⟩
+
+/-- every value that `RpmVersion(string)` builds is `Built` -/
+theorem construct_wf (s : List Char) (r : Raw) (h : construct s = .ok r) : Built r := by
+  rcases hf : fromEvr (normalize s) with _ | r'
+  · simp [construct, isValid, hf] at h
+  · by_cases he : (normalize s).isEmpty = true
+    · simp [construct, isValid, hf, he] at h
+    · by_cases hv : r'.version.isEmpty = true
+      · simp [construct, isValid, hf, he, hv] at h
+      · simp only [construct, isValid, hf, he, hv, Bool.false_eq_true, ↓reduceIte, Bool.not_false,
+          Bool.not_true, Except.ok.injEq] at h
+        subst h
+        obtain ⟨h1, h2, h3, h4⟩ := fromEvr_wf _ r' (noWs_normalize s) hf
+        have hne : r'.version.isEmpty = false := by simpa using hv
+        have h3' : '-' ∉ r'.version := by simpa using h3
+        simp [Built, built, h1, h2, h3', h4, hne]
+
+/-- a constructed value round-trips through `str` as soon as its epoch is printed, or the rest
+cannot be mistaken for an epoch / a `v` prefix -/
+theorem construct_str_roundtrip (s : List Char) (r : Raw) (h : construct s = .ok r)
+    (hx : r.epoch ≠ 0 ∨ (r.version.contains ':' = false ∧ r.release.contains ':' = false ∧
+      wellFormed.startsV r.version = false)) : construct (str r) = .ok r := by
+  apply str_roundtrip
+  have hb := construct_wf s r h
+  simp only [Built] at hb
+  simp only [WellFormed, wellFormed, hb, Bool.true_and, Bool.or_eq_true, bne_iff_ne, ne_eq,
+    Bool.and_eq_true, Bool.not_eq_true']
+  rcases hx with hx | ⟨h1, h2, h3⟩
+  · exact Or.inl hx
+  · exact Or.inr ⟨⟨h1, h2⟩, h3⟩
 
 end Univers.Rpm
